@@ -16,6 +16,9 @@ impl Writer<PW> for Rec {
     type Cli = cli::Empty;
     async fn handle_event(&mut self, ev: REv, _: &cli::Empty) {
         let a = self.cat.abstract_ev(&ev);
+        if !self.cat.meta_ok(&ev, &a) {
+            self.log.borrow_mut().push("!metadata-changed".to_owned());
+        }
         self.log.borrow_mut().push(show_aev(&a));
     }
 }
